@@ -476,6 +476,20 @@ fn families(quick: bool) -> Vec<LmFamily> {
         offsets: vec![0.0],
         named: false,
     });
+    // right-hand sides around 1e6: candidate ratios differ by 5 in 1e6
+    v.push(LmFamily {
+        name: "T9-large-right-hand-sides-n2m3",
+        n: 2,
+        m: 3,
+        doms: vec![Dom::NonNeg],
+        coefs: vec![0.0, 1.0, 2.0],
+        rhss: vec![400000.0, 1000000.0, 1000005.0],
+        rels: vec![Rel::Le],
+        objs: vec![2.0, 3.0],
+        senses: vec![Sense::Max],
+        offsets: vec![0.0],
+        named: false,
+    });
     if !quick {
         // coefficients 3 and 6: dividing a pivot row by 3 leaves thirds, so eliminations on rows that are exact
         // multiples of each other leave rounding residues (+-1e-16) where the exact tableau has zeros
